@@ -123,8 +123,90 @@ def run_property(prop, tier):
         log("watchdog: %s did not finish within %ds: inconclusive" % (prop, limit))
         return 2
     if prop == "C09" and code == 0:
-        return c09_release_like(seed, tier, out, limit)
+        code = c09_release_like(seed, tier, out, limit)
+    if code == 0 and tier == "thorough" and prop in ("C01", "C03", "C09"):
+        return fuzz_parse(prop, seed)
     return code if code in (0, 1) else 2
+
+
+def fuzz_parse(prop, seed):
+    """Thorough tier of C01 / C03 / C09: a coverage-guided libFuzzer campaign over the compiled
+    corpus (bytes -> grammar, rule, tape-driven or raw input) with the three oracles inside the
+    target; fixed number of runs, seed from VERIF_SEED, fresh corpus directory."""
+    import glob
+    import hashlib
+    import shutil
+
+    fdir = os.path.join(ROOT, "fuzz_parse")
+    corp = os.path.join(ROOT, "work", "fuzz_corpus", "parse_" + prop)
+    art = os.path.join(ROOT, "work", "fuzz_artifacts", "parse_" + prop) + os.sep
+    shutil.rmtree(corp, ignore_errors=True)
+    shutil.rmtree(art, ignore_errors=True)
+    os.makedirs(corp)
+    os.makedirs(art)
+    # a few seeds spread over the (grammar, rule) space, both decodings
+    for i in range(64):
+        h = hashlib.sha256(("%d/%d/%s" % (seed, i, prop)).encode()).digest()
+        with open(os.path.join(corp, "seed%02d" % i), "wb") as f:
+            f.write(h[:2] + bytes([i & 1]) + h[2:26])
+    env = dict(ENV)
+    env["CARGO_TARGET_DIR"] = os.path.join(TARGET, "fuzz_parse")
+    runs = 3000000
+    offset = {"C01": 1, "C03": 2, "C09": 3}[prop]
+    cmd = ["cargo", "+nightly", "fuzz", "run", "parse", corp, "--", "-runs=%d" % runs, "-seed=%d" % (seed * 4 + offset), "-max_len=80", "-len_control=0", "-rss_limit_mb=8192", "-artifact_prefix=" + art, "-print_final_stats=1"]
+    t = time.time()
+    code, outp = run(cmd, cwd=fdir, env=env, capture=True, timeout=5 * 3600)
+    logp = os.path.join(ROOT, "work", "fuzz_parse_%s.log" % prop)
+    with open(logp, "w") as f:
+        f.write(outp)
+    log("libFuzzer parse (%s): status %s in %.0fs" % (prop, code, time.time() - t))
+    if code is None:
+        log("libFuzzer campaign ran out of time: inconclusive")
+        return 2
+    stats = {}
+    for l in reversed(outp.splitlines()):
+        if l.startswith("#") and "cov:" in l:
+            toks = l.split()
+            stats["executions"] = int(toks[0].lstrip("#"))
+            for a, b in zip(toks, toks[1:]):
+                if a == "cov:":
+                    stats["coverage_edges"] = int(b)
+                if a == "ft:":
+                    stats["features"] = int(b)
+                if a == "corp:":
+                    stats["corpus"] = b
+            break
+    doc = None
+    for l in outp.splitlines():
+        if l.startswith("VIOLATION-DOC "):
+            try:
+                doc = json.loads(l[len("VIOLATION-DOC "):])
+            except ValueError:
+                pass
+    arts = sorted(glob.glob(art + "*"))
+    if code != 0 and doc is None and not arts:
+        sys.stderr.write(outp[-3000:])
+        log("the fuzz target does not build or run: inconclusive")
+        return 2
+    evp = os.path.join(ROOT, "evidence", prop + ".json")
+    try:
+        ev = json.load(open(evp))
+        ev["coverage"]["libfuzzer"] = stats
+        if doc is not None or arts:
+            ev["violations"] = 1
+        json.dump(ev, open(evp, "w"), indent=1)
+    except Exception:  # noqa: BLE001
+        pass
+    if doc is None and arts:
+        doc = {"property": prop, "why": "the fuzz target crashed without a violation document (memory error or abort); crashing input: " + arts[0], "artifact": arts[0]}
+    if doc is not None:
+        rd = os.path.join(ROOT, "work", "replay")
+        os.makedirs(rd, exist_ok=True)
+        path = os.path.join(rd, "%s-fuzz-%s.json" % (doc.get("property", prop), hashlib.sha256(json.dumps(doc, sort_keys=True).encode()).hexdigest()[:16]))
+        json.dump(doc, open(path, "w"), indent=1)
+        print("VIOLATION property=%s replay=%s" % (doc.get("property", prop), path))
+        return 1
+    return 0
 
 
 def c09_release_like(seed, tier, out, limit):
